@@ -332,9 +332,13 @@ def run(prop, tier, seed, scratch, build):
     for name, o in load_corpus(prop):
         one(o["lines"], corpus_name=name)
     base = seed * 1000003 + int(prop[1:]) * 7919
+    deadline = time.time() + (150 if tier == "quick" else 2400)
     for i in range(nseq):
         one(base + i)
         if len(oracle_hits) >= 3:
+            break
+        if time.time() > deadline:
+            out.notes.append("time budget reached after %d generated sequences" % (i + 1))
             break
 
     # property-specific harnesses (direct failing-input finders and the implementation-only ties)
@@ -381,7 +385,8 @@ def run(prop, tier, seed, scratch, build):
             if fs and not matches_known(prop, fs[0]):
                 found = (lines, fs[0]); break
         r = random.Random(seed + 99)
-        while found is None and tried < search_n:
+        search_deadline = time.time() + (120 if tier == "quick" else 1200)
+        while found is None and tried < search_n and time.time() < search_deadline:
             tried += 1
             im = Impl(scratch)
             try:
